@@ -471,15 +471,20 @@ fn scientific_to_plain(s: String) -> String {
     let before_exponent = split1.next().unwrap();
     let after_exponent = split1.next().unwrap();
     let exponent_digits = usize::from_str(after_exponent).unwrap();
+    // the sign belongs in front of the leading zero, not in front of the first significant digit
+    let (sign, before_exponent) = match before_exponent.strip_prefix('-') {
+      Some(digits) => ("-", digits),
+      None => ("", before_exponent),
+    };
     if before_exponent.contains('.') {
       let mut split2 = before_exponent.split('.');
       let before_decimal = split2.next().unwrap();
       let after_decimal = split2.next().unwrap();
       let zeroes = (1..exponent_digits).map(|_| "0").collect::<String>();
-      format!("0.{}{}{}", zeroes, before_decimal, after_decimal)
+      format!("{}0.{}{}{}", sign, zeroes, before_decimal, after_decimal)
     } else {
       let zeroes = (1..exponent_digits).map(|_| "0").collect::<String>();
-      format!("0.{}{}", zeroes, before_exponent)
+      format!("{}0.{}{}", sign, zeroes, before_exponent)
     }
   } else {
     s
